@@ -265,6 +265,12 @@ package swap
 //@   requires (amount0In.val >= 0 && amount1Out.val >= 0) || (amount0In.val <= 0 && amount1Out.val <= 0)
 //@   splitreturns
 //@   assumespre (*PairV2).update: the tail that applies a non-negative step is outside this contract
+//@   assumespre (*PairV2).updateOrders: the tail that applies a non-negative step is outside this contract
+//@   assumespre (*Limit).clone: the tail that applies a non-negative step is outside this contract
+//@   assumespre (*Limit).isEmpty: the tail that applies a non-negative step is outside this contract
+//@   assumespre (*Limit).Reverse: the tail that applies a non-negative step is outside this contract
+//@   assumespre (*PairV2).isDirtyOrder: the tail that applies a non-negative step is outside this contract
+//@   assumespre (*PairV2).updateSellOrder: the tail that applies a non-negative step is outside this contract
 //@   ensures [C15] mirrored: old(amount0In.val < 0 || amount1Out.val < 0) ==> viewOf(result) == mirror(after(mirror(old(viewOf(p))), -old(amount1Out.val), -old(amount0In.val), !buy))
 
 //@ # ---------------------------------------------------------------- limit orders: fills, minimum volume, refunds (C14)
